@@ -309,6 +309,37 @@ def root_variants(e):
         yield (inner[0], [inner[1][0], (op, inner[1][1:] + e[1][1:])])
 
 
+def multiplicity_variants_at_root(e):
+    """The same expected items with another multiplicity (one more occurrence of the first item; every item once): always tried."""
+    if e[0] in G.LIST_LEAVES and e[1]:
+        yield (e[0], list(e[1]) + [e[1][0]])
+        once = [x for i, x in enumerate(e[1]) if not any(type(y) is type(x) and y == x for y in e[1][:i])]
+        if len(once) < len(e[1]):
+            yield (e[0], once)
+
+
+def key_variants_at_root(e):
+    """has_entry with an int key (or list index) read as the string of its digits, and back: other entries, so another wording."""
+    if e[0] != "has_entry":
+        return
+
+    def flip(k):
+        if isinstance(k, bool):
+            return None
+        if isinstance(k, int):
+            return str(k)
+        if isinstance(k, str) and k.lstrip("-").isdigit():
+            return int(k)
+        return None
+    k = e[1]
+    if isinstance(k, list):
+        for i, x in enumerate(k):
+            if not isinstance(x, list) and flip(x) is not None:
+                yield ("has_entry", k[:i] + [flip(x)] + k[i + 1:]) + tuple(e[2:])
+    elif flip(k) is not None:
+        yield ("has_entry", flip(k)) + tuple(e[2:])
+
+
 def negate(a):
     return a[1] if not G.is_value_arg(a) and a[0] == "not_" else ("not_", a)
 
@@ -459,6 +490,10 @@ def check(run):
     dom = G.value_domain(run.rng, 29)
     verbs = [x for x in G.STRS if x.startswith(("to ", "is", "has", "can"))]
     dom = dom + verbs + [[x] for x in verbs] + [{"a": x} for x in verbs]
+    # lists that differ by the multiplicity of an item only (has_only_items compares multisets)
+    # entries reachable by an int key / index only, or by the string of the same digits only
+    dom = dom + [{"0": "a"}, {0: "a"}, {"1": 1}, {"-1": 1}, {-1: 1}, {"a": {"0": 1}}, {"a": [1]}, {"0": {"a": 1}}, [{"a": 1}]]
+    dom = dom + [[1, 1], [1, 1, 2], [2, 2, 1], [None, None], ["a", "a"], [True, True, False], [0, 0], [None, 2, 2], [10, 10, 1]]
 
     # ---- known findings: replay every recorded witness on the implementation
     for tag, (e1, e2, v) in WITNESSES.items():
@@ -516,8 +551,13 @@ def check(run):
         # its semantic neighbours: if one accepts other values it must be described differently
         vs = list(variants(e))
         must = list(variants(e, negation_variants_at_root))
+        mult = list(variants(e, multiplicity_variants_at_root))
+        run.count("fragment_multiplicity_neighbours", len(mult))
+        keyv = list(variants(e, key_variants_at_root))
+        run.count("fragment_key_type_neighbours", len(keyv))
+        must = mult[:3] + keyv[:3] + must
         run.count("fragment_negation_neighbours", len(must))
-        for v in must[:6] + (vs if len(vs) <= 8 else run.rng.sample(vs, 8)):
+        for v in must[:10] + (vs if len(vs) <= 8 else run.rng.sample(vs, 8)):
             run.count("fragment_neighbours")
             run.evaluations += 1
             groups.setdefault(describe_full(v, False, False)[0], {}).setdefault(accepted(v, dom), []).append(v)
